@@ -50,8 +50,16 @@ def generate(rng, focus, tier="quick"):
     adhoc = [[rng.choice(sorted(market["assets"])), rng.randrange(lo, hi)] for _ in range(rng.randrange(0, 30))]
     n_events = 2 * max(1, (cfg["end"] - cfg["start"]) // DAY)
     clears = sorted(set(rng.randrange(0, n_events) for _ in range(rng.randrange(1, 6))))
-    return {"world": NAME, "cfg": cfg, "market": market, "others": others, "adhoc": adhoc, "clears": clears,
+    plan = {"world": NAME, "cfg": cfg, "market": market, "others": others, "adhoc": adhoc, "clears": clears,
             "perm_seed": rng.randrange(1 << 30), "uuid_seed": rng.randrange(1 << 30), "hash_seeds": list(HASH_SEEDS if tier == "thorough" else HASH_SEEDS[:2])}
+    # a long-lived host process: so many orders went through another broker object before the run that any
+    # process-wide counter is about to gain a digit / wrap (just below a power of ten or of two)
+    plan["prior_orders"] = None
+    if rng.random() < 0.5:
+        # "aim": where among the orders of the repeated run the counter reaches the boundary (a fraction of them)
+        plan["prior_orders"] = {"boundary": rng.choice([10 ** 5, 10 ** 6, 10 ** 6, 10 ** 6, 2 ** 16, 2 ** 20]),
+                                "aim": round(rng.random(), 3)}
+    return plan
 
 
 def result_digest(out):
@@ -222,9 +230,33 @@ def _run(plan, ctx, child):
         return worst
     d5, p5 = forked(variant_e)
     ctx.fault("other_market_session_before")
+    d8 = None
+    if plan.get("prior_orders"):
+        def variant_h():
+            from qstrader.broker.simulated_broker import SimulatedBroker
+            from qstrader.exchange.simulated_exchange import SimulatedExchange
+            from qstrader.execution.order import Order
+            po = plan["prior_orders"]
+            # the run once (its orders count too), then throw-away orders on a host broker up to just below the
+            # boundary, then the run again: the boundary is crossed somewhere among its orders
+            first = plain_digest(cfg, market, uuid_seed=us + 30)
+            n = len(first[1].get("fills", []))
+            j = 1 + int(po["aim"] * max(1, n))
+            t0 = ts(cfg["start"])
+            host = SimulatedBroker(t0, SimulatedExchange(t0), None, account_id="host")
+            host.create_portfolio("scratch", "scratch")
+            o = Order(t0, "EQ:ZZZ", 1)
+            for _ in range(max(0, int(po["boundary"]) - n - j)):
+                host.submit_order("scratch", o)
+            second = plain_digest(cfg, market, uuid_seed=us + 31)
+            return second if second[0] != first[0] else first
+        d8, p8 = forked(variant_h)
+        ctx.fault("many_orders_on_another_broker_before")
     base, base_parts = plain_digest(cfg, market, uuid_seed=us)
     ctx.event("base")
     variants = [("after_sessions_on_other_market_data", d5, p5)]
+    if d8 is not None:
+        variants.append(("after_many_orders_on_another_broker_in_the_process", d8, p8))
     # (a) again in the same process with fresh objects
     d2, p2 = plain_digest(cfg, market, uuid_seed=us + 1)     # another stream of order ids
     variants.append(("same_process_again", d2, p2))
